@@ -287,10 +287,25 @@ fn run_batch(cfg: &Cfg, fmts: &[Vec<&Comp>]) -> (Option<(Vec<u8>, crate::findrun
     let args: Vec<&str> = argv.iter().map(|s| s.as_str()).collect();
     let got = run_find(&args);
     if got.out == expected && got.code == Ok(0) {
+        XCHECK.with(|x| {
+            let mut x = x.borrow_mut();
+            x.0 += 1;
+            if x.0 % 211 == 1 {
+                match crate::findrun::cross_check_bin(&args, &got) {
+                    Ok(()) => x.1 += 1,
+                    Err(e) => x.2.push(e),
+                }
+            }
+        });
         (None, judged)
     } else {
         (Some((expected, got, argv)), judged)
     }
+}
+
+thread_local! {
+    /// (batches seen, batches cross-validated through the binary, disagreements)
+    static XCHECK: std::cell::RefCell<(u64, u64, Vec<String>)> = const { std::cell::RefCell::new((0, 0, Vec::new())) };
 }
 
 fn show(b: &[u8]) -> String {
@@ -430,6 +445,13 @@ fn run(ctx: &mut Ctx) {
         unicode_slice(ctx, &comps);
     }
     let _ = std::env::set_current_dir(&ctx.sbx);
+    XCHECK.with(|x| {
+        let x = x.borrow();
+        ctx.rep.traces_validated += x.1;
+        for e in x.2.iter().take(3) {
+            ctx.rep.machinery(e.clone());
+        }
+    });
 }
 
 fn fprintf_slice(ctx: &mut Ctx, cfg: &Cfg, comps: &[Comp]) {
